@@ -106,6 +106,7 @@ type Engine struct {
 	keyConf    []uint64
 	pendingNew map[uint64]int // buffered new items per key hash (probes only)
 	pendQ      map[uint64][]*Val
+	curNew     *Val // value carried by the new item the applier is deciding on (nil if unknown)
 
 	joinWG *sync.WaitGroup
 
@@ -431,10 +432,12 @@ func hookEvent(kind int, key uint64, a, b int64) {
 			}
 		}
 	case evApplierNew:
+		e.curNew = nil
 		if e.pendQ != nil {
 			if q := e.pendQ[key]; len(q) > 0 {
 				v := q[0]
 				e.pendQ[key] = q[1:]
+				e.curNew = v
 				if v.TTL > 0 && v.RetT != 0 && time.Now().UnixNano() > v.RetT+v.TTL {
 					probe(PrLateApply)
 				}
